@@ -180,6 +180,12 @@ def _many_dup_packed(g, n, cf, mks=("ll", "lf", "ll")):
         for d in dups:
             for _ in range(g.rng.choice([1, 1, 2])):
                 pats.insert(g.rng.randrange(len(pats) + 1), d)
+        if g.rng.random() < 0.4:
+            # bytes in the upper half (the high-nybble tables of slim AND fat Teddy: 33..64 patterns select the fat one)
+            tr = {c: g.rng.choice([c, c | 0x80, c ^ 0xF0]) for c in b"abcdefghijklmnopz"}
+            if len(set(tr.values())) == len(tr):
+                pats = [bytes(tr.get(c, c) for c in p0) for p0 in pats]
+                dups = [bytes(tr.get(c, c) for c in p0) for p0 in dups]
         mk = g.rng.choice(list(mks))
         for _ in range(2):
             picks = [g.rng.choice(dups) for _ in range(3)]
@@ -312,9 +318,23 @@ def gen_C09(tier, seed):
                         maxp=2, maxplen=2, maxhay=3, anch=True)
     reqs += _find_like(g, qn(q, 200, 2000), ["std", "lf", "ll"], ["find", "iter"], CFG_ANCH, anch=True)
     reqs += _find_like(g, qn(q, 100, 1000), ["std"], ["ovl"], CFG_ANCH, anch=True)
+    # anchored AND case-insensitive: the anchored start state needs the transitions of both letter cases; an occurrence
+    # spelt in the other case begins exactly at the search start (every span start, `iter` continuing after it)
+    for _ in range(qn(q, 80, 800)):
+        pats = g.casey() if g.rng.random() < 0.6 else [p for p in g.pats() if p] or [b"ab"]
+        pre = bytes(g.rng.choice(b"xyz") for _ in range(g.rng.randint(0, 3)))
+        body = b"".join(bytes((c ^ 0x20) if (65 <= c <= 90 or 97 <= c <= 122) and g.rng.random() < 0.7 else c for c in g.rng.choice(pats))
+                        for _ in range(g.rng.randint(1, 3)))
+        hay = pre + body + bytes(g.rng.choice(b"xyz") for _ in range(g.rng.randint(0, 2)))
+        mk = g.rng.choice(["std", "lf", "ll"])
+        op = g.rng.choice(["find", "iter", "ovl"] if mk == "std" else ["find", "iter"])
+        kv = {"mk": mk, "pats": hxlist(pats), "hay": hx(hay), "s": len(pre), "anch": 1, "fold": 1, "cfgs": cfgs(CFG_ANCH)}
+        if op == "ovl":
+            kv["n"] = 4 + (len(pats) + 1) * (len(hay) + 1)
+        reqs.append(fmt_req(op, kv))
     certs = _fixed_certs(["std", "lf", "ll"], CORPUS_LISTS,
                          cfgl=["nc.d.1.0.b", "c.0.0.0.b", "dfa.d.1.0.b", "dfa.d.0.0.a"])
-    certs += _certs(g, qn(q, 30, 300), ["std", "lf", "ll"],
+    certs += _certs(g, qn(q, 30, 300), ["std", "lf", "ll"], fold=0.3,
                     cfgl=["nc.d.1.0.b", "c.d.1.0.b", "c.0.0.0.b", "dfa.d.1.0.b", "dfa.d.0.0.a"])
     return {"reqs": reqs, "certs": certs, "first": "bykind", "gen": g, "modes": "1"}
 
@@ -474,6 +494,8 @@ def _stream_reqs(g, tier, op, faults=False):
                 if faults:
                     if op == "stream" or g.rng.random() < 0.5:
                         extra = {"rfail": g.rng.randint(0, len(sched) + 1), "rkind": g.rng.choice(RKINDS)}
+                        if op == "stream" and g.rng.random() < 0.5:
+                            extra["resume"] = 1     # the caller keeps pulling after the error item
                     else:
                         extra = {"wlimit": g.rng.randint(0, len(data) + 2)}
                 reqs.append(mk(pats, data, sched, spare, extra,
@@ -493,6 +515,8 @@ def _stream_reqs(g, tier, op, faults=False):
         if faults:
             if op == "stream" or g.rng.random() < 0.5:
                 extra = {"rfail": g.rng.randint(0, len(sched) + 2), "rkind": g.rng.choice(RKINDS)}
+                if op == "stream" and g.rng.random() < 0.5:
+                    extra["resume"] = 1
             else:
                 extra = {"wlimit": g.rng.randint(0, len(data) + 3)}
         if g.rng.random() < 0.2:
@@ -563,7 +587,7 @@ def _top_stream(g, reqs, n):
     small = [r for r in reqs if len(r) < 2000 and r.split(" ", 1)[0] in STREAM_OPS]
     out = []
     for r in g.rng.sample(small, min(n, len(small))):
-        head = r.split(" cfgs=")[0]
+        head = r.split(" cfgs=")[0].replace(" resume=1", "")   # (resumption is modelled below the top level only)
         out.append("top" + head + " cfgs=" + cfgs(g.rng.sample(TOP_CFGS, 6)))
     return out
 
@@ -660,11 +684,16 @@ def _shift(resp, d):
 def pre_pats(g):
     """pattern lists that activate each prefilter variant (DESIGN 4.3)"""
     k = g.rng.choice(["memmem", "start1", "start2", "start3", "rare", "rare", "rare3", "rare2ci", "packed", "packed",
-                      "none_many", "hi_start", "mixed_hi", "mixed_hi"])
+                      "none_many", "hi_start", "mixed_hi", "mixed_hi", "start4plus"])
     g.note("pre:" + k)
     alpha = b"abcdefgh"
     if k == "memmem":
         return [g.word(alpha, 1, 6)]
+    if k == "start4plus":
+        # four to six distinct first bytes and many rare bytes: NO start-byte prefilter may be built (its three-byte scanner
+        # cannot cover them), under standard semantics no packed one either
+        firsts = g.rng.sample(list(b"abcdghxyz"), g.rng.randint(4, 6))
+        return [bytes([f]) + g.word(alpha, 0, 3) for f in firsts] + [bytes([g.rng.choice(firsts)]) + g.word(alpha, 1, 3) for _ in range(g.rng.randint(0, 2))]
     if k.startswith("start"):
         n = int(k[-1])
         firsts = g.rng.sample(list(b"abcdxyz"), n)
@@ -1245,6 +1274,16 @@ def gen_C06(tier, seed):
                     # vector window's leading lanes stand for positions before the span)
                     kv2 = dict(kv); kv2["s"] = pos + 1; kv2["e"] = n
                     reqs.append(fmt_req("packed", kv2))
+    # exactly at the builder's pattern limit (128 accepted, the 129th renders the builder inert: no searcher), every engine
+    for n in (127, 128, 129, 130):
+        seen, pats = set(), []
+        while len(pats) < n:
+            w = g.word(b"abcdefghijkl", 3, 5)
+            if w not in seen:
+                seen.add(w); pats.append(w)
+        hay = b"zz" + pats[0] + b"zzzzzzzzzzzzzzzzzzzzzzzzz" + pats[-1] + b"zzz" + pats[n // 2]
+        for mk in ("lf", "ll"):
+            reqs.append(fmt_req("packed", {"mk": mk, "pats": hxlist(pats), "hay": hx(hay), "api": "iter", "pcfg": "rk;default;teddy"}))
     # the empty pattern anywhere in the list (and more patterns than the builder accepts): no searcher at all, never a
     # searcher of the remaining patterns
     for pats in ([b"ab", b""], [b"", b"ab"], [b"ab", b"", b"cd"], [b"", b"ab", b"cd", b"xab"], [b""], [b"a", b"b", b""]):
